@@ -151,10 +151,10 @@ CHECKS = {
  "C19": dict(
    text="Lean 4 theorems on a model of MD3: exact refusal rules and guard order, refused calls leave the whole state unchanged, the decision happens at exactly "
         "the N-th well-formed label (drift iff sens*accStd < acc - correct/N), the new reference is adopted, waiting cleared, md restarts at the new reference "
-        "md; strict warning rule; counters and lifetime of 'drift'; over fields lambda=(N-1)/N and the closed form of the margin density. Tied to md3.py by a "
+        "md; strict warning rule; counters and lifetime of 'drift'; over fields lambda=(N-1)/N and the closed form of the margin density; the k-fold reference summary (len, fold means and population deviations of margin density and accuracy, numpy pairwise summation order) is computed by the model from per-fold bit lists and proved to be the fold mean (not the pooled ratio) . Tied to md3.py by a "
         "differential correspondence (exhaustive over bounded interleavings of legal and illegal calls, random beyond) plus the protocol clauses run directly "
         "on the implementation.",
-   note="Classifier, margin function and k-fold reference statistics are oracle inputs (recomputed with public sklearn); Float rounding not covered; "
+   note="Classifier, margin function and KFold's fold membership are oracle inputs (per-sample margin / correctness bits recomputed with public sklearn); the reference statistics themselves are modelled; Float rounding not covered; "
         "exhaustive to length 5-7 unreduced, 8/10 modulo the verified-unchanged-refusal reduction; excluded: k larger than the reference or oracle length.",
    technique="Lean 4 proof (invariant, induction over call histories, closed-form algebra) + model/implementation differential testing with exact-boundary dyadic configurations",
    ref="§7 C19"),
